@@ -248,7 +248,7 @@ impl Engine for C14 {
     }
     fn rule(&self) -> String {
         format!(
-            "base paths {{plain `…/lib`, containing a space `…/my lib`, plain with a trailing slash, a symbolic link to the directory that holds the files}} x every non-empty subset (up to the size bound) of the file names {:?} (`n.md` is the file `n.md.md`), each file `<name>.md` = a titled note, plus a linking note `zz.md` with one block reference `[x](<name>)` per file; written to a scratch directory, loaded by the real disk loader and served by a real Server exactly as main_loop's `state: None` branch does; URIs only from Url::from_file_path. Clauses per file f: load — exactly one note carries f's title and there are |files|+1 notes; formatting(uri(f)) answers f's text; backlink — references(uri(f)) contains zz; definition — go-to-definition on zz's link to f answers a URI that opens f; uris — every URI in the answers (workspace symbols, references, definition, document symbols) maps back with Url::to_file_path to a file of the tree, and the symbol titled like f opens f; didChange(uri(f), new titled text) — the note count is unchanged, f's old title is gone and exactly one note carries the new one. non-trivial = the library loaded and at least one clause was evaluated on a handler answer",
+            "base paths {{plain `…/lib`, containing a space `…/my lib`, plain with a trailing slash, a symbolic link to the directory that holds the files}} x every non-empty subset (up to the size bound) of the file names {:?} (`n.md` is the file `n.md.md`), each file `<name>.md` = a titled note, plus a linking note `zz.md` with one block reference `[x](<name>)` per file; written to a scratch directory, loaded by the real disk loader and served by a real Server exactly as main_loop's `state: None` branch does; URIs only from Url::from_file_path. Clauses per file f: load — exactly one note carries f's title and there are |files|+1 notes; formatting(uri(f)) answers f's text; backlink — references(uri(f)) contains zz; definition — go-to-definition on zz's link to f answers a URI that opens f; uris — every URI in the answers (workspace symbols, references, definition, document symbols) maps back with Url::to_file_path to a file of the tree, and the symbol titled like f opens f; didChange(uri(f), new titled text) — the note count is unchanged, f's old title is gone and exactly one note carries the new one; didSave(uri(f), another titled text) — likewise. non-trivial = the library loaded and at least one clause was evaluated on a handler answer",
             NAMES
         )
     }
@@ -477,6 +477,42 @@ impl Engine for C14 {
                     }
                     Err(p) => {
                         push("didChange", site_of_panic(&p), &ff, format!("listing the notes after didChange({}): panic at {}: {}", u, p.0, trunc(&p.1, 200)));
+                        break;
+                    }
+                }
+            }
+            // ---- didSave(uri(f), text): the same for the other edit notification
+            for f in &files {
+                let ff = file_features(&base, f);
+                let u = lib.uri(f);
+                let saved_title = format!("SV{}", idx(f));
+                tr += 1;
+                let r = guarded(|| {
+                    s.handle_did_save_text_document(DidSaveTextDocumentParams { text_document: td(&u), text: Some(format!("# {}\n\nsaved {}\n", saved_title, idx(f))) })
+                });
+                if let Err(p) = r {
+                    push("didSave", site_of_panic(&p), &ff, format!("didSave({}): panic at {}: {}", u, p.0, trunc(&p.1, 200)));
+                    break;
+                }
+                let before = expect.clone();
+                for t in expect.iter_mut() {
+                    if *t == changed_title(f) {
+                        *t = saved_title.clone();
+                    }
+                }
+                expect.sort();
+                tr += 1;
+                judged += 1;
+                match note_titles(&s, &zz) {
+                    Ok(now) => {
+                        if now != expect {
+                            let site = if now.len() != expect.len() { "second-note-created" } else { "other-note-changed" };
+                            push("didSave", site.into(), &ff, format!("didSave({}) with a text titled {:?}: notes were {:?}, expected {:?}, are {:?}", u, saved_title, before, expect, now));
+                            expect = now;
+                        }
+                    }
+                    Err(p) => {
+                        push("didSave", site_of_panic(&p), &ff, format!("listing the notes after didSave({}): panic at {}: {}", u, p.0, trunc(&p.1, 200)));
                         break;
                     }
                 }
